@@ -178,7 +178,7 @@ func c18Monitor(k, j int) {
 func VerifHarness_C18_Monitor() {
 	c18Monitor(verifIntRange("searches", 0, 2), verifIntRange("dbops", 0, 2))
 }
-func VerifHarness_C18_Monitor3() { c18Monitor(3, 3) }
+func VerifHarness_C18_Monitor3() { c18Monitor(3, 2) }
 
 // same identity recorded twice => exactly one series holding both events
 func VerifHarness_C18_MonitorSameIdentity() {
